@@ -221,6 +221,35 @@ Section Alpha.
       apply IH. exact A'.
   Qed.
 
+  (* reachable control states are inside the invariant and in step with the reference *)
+  Lemma reach_alpha w c s :
+    ctl_run K ctl_init [] w = Some (c, s) ->
+    exists r, rrun one RTop [] w = Some (r, s) /\ alpha c (view_of s) = Some r.
+  Proof.
+    intro H. assert (A0 : alpha ctl_init (view_of []) = Some RTop) by reflexivity.
+    pose proof (sim_run w ctl_init [] RTop A0) as S. rewrite H in S.
+    destruct (rrun one RTop [] w) as [[r s']|]; [|contradiction].
+    destruct S as [<- A]. exists r. auto.
+  Qed.
+
+  Lemma run_none_iff w : ctl_run K ctl_init [] w = None <-> rrun one RTop [] w = None.
+  Proof.
+    assert (A0 : alpha ctl_init (view_of []) = Some RTop) by reflexivity.
+    pose proof (sim_run w ctl_init [] RTop A0) as S.
+    destruct (ctl_run K ctl_init [] w) as [[c s]|]; destruct (rrun one RTop [] w) as [[r s']|];
+      try contradiction; split; intro; try discriminate; reflexivity.
+  Qed.
+
+  (* C06, control part: no reachable control state faults (index out of range in the literal
+     words) on any byte *)
+  Theorem ctl_never_faults w c s b :
+    ctl_run K ctl_init [] w = Some (c, s) -> ctl_step K c (view_of s) b <> CFault.
+  Proof.
+    intros H F. destruct (reach_alpha w c s H) as (r & _ & A).
+    destruct (sweep_cell c (view_of s) b) as [Hc _]. unfold cell_ok in Hc. rewrite A, F in Hc.
+    destruct (rstep one r (view_of s) b) as [[? ?]|]; discriminate.
+  Qed.
+
   Theorem accepts_eq_ref w : ctl_accepts K w = ref_accepts one w.
   Proof.
     unfold ctl_accepts, ref_accepts.
